@@ -93,7 +93,9 @@ class Gen:
             return self.lst(1)
         if k < 0.9:
             return self.table(depth)
-        return ("pre", [self.words(1, 3) for _ in range(r.randint(1, 2))])
+        # 1-5 consecutive space-indented lines; a line is plain words or carries inline markup after/before words
+        return ("pre", [self.words(1, 3) if r.random() < 0.6 else self.words(1, 2) + self.inlines(1, allow_ref=False) + self.words(0, 1)
+                        for _ in range(r.choice([1, 1, 2, 2, 3, 3, 4, 5]))])
 
     def section(self, level, depth):
         r = self.rng
